@@ -1,10 +1,10 @@
 #!/bin/bash
-# usage: seedsweep.sh C04 C05 ...  -> runs seedtest for every mut of each property in parallel
+# usage: seedsweep.sh C04 C05 ...  -> runs seedtest for every kept change of each property (both rounds), in parallel
 for P in "$@"; do
-  for f in /tmp/seed/$P-out/mut*.diff; do
-    k=$(basename $f .diff | sed 's/mut//')
-    ( timeout 900 /venv/bin/python /verif/tools/seedtest.py $P $f /tmp/seed/$P-out/demo$k.py | /venv/bin/python -c "
-import json,sys; r=json.load(sys.stdin); print('$P-$k', 'apply',r['apply'],'demo',r['demo_clean'],r['demo_mut'], {p:(v['exit'],[x.split('instance=')[-1][:70] for x in v['fails'][:2]]) for p,v in r['checks'].items()})" ) &
+  for d in /verif/seeded/$P-*; do
+    k=$(basename $d)
+    ( timeout 900 /venv/bin/python /verif/tools/seedtest.py $P $d/patch.diff $d/demo.py | /venv/bin/python -c "
+import json,sys; r=json.load(sys.stdin); print('$k', 'apply',r['apply'],'demo',r['demo_clean'],r['demo_mut'], {p:(v['exit'],[x.split('instance=')[-1][:70] for x in v['fails'][:2]]) for p,v in r['checks'].items()})" ) &
   done
 done
 wait
